@@ -231,6 +231,14 @@ func (n *LocalNode) FinishJoin(stabilize bool, release bool) error {
 func (n *LocalNode) RequestToLeave(leaver chord.VNode) error {
 	n.logger.Info("incoming leave request", zap.Object("leaver", leaver.Identity()))
 
+	// the leaver hands all of its keys to its successor: that must be us. If another node has
+	// joined in between (the leaver's successor pointer is stale) the keys belong to that node,
+	// and they would be stranded here, invisible to lookups. Let the leaver retry after it has
+	// stabilized
+	if pre := n.getPredecessor(); pre == nil || pre.ID() != leaver.ID() {
+		n.logger.Warn("Rejecting leave request because the leaver is not our predecessor")
+		return chord.ErrLeaveInvalidState
+	}
 	if curr, ok := n.state.Transition(chord.Active, chord.Transferring); !ok {
 		n.logger.Warn("Rejecting leave request because current state is not Active", zap.String("state", curr.String()))
 		return chord.ErrLeaveInvalidState
